@@ -118,6 +118,19 @@ def run_case(c):
                         out["fails"].append(["helper-minmax", "%s: min_freq / max_freq differ from the frame's" % where])
             except SystemExit as ex:
                 out["fails"].append(["blimpy-exit", "%s: blimpy exits reading the file (%r)" % (where, ex)])
+            # the same path written again with another band of the same shape (same byte size): the helpers must describe what is on disk NOW
+            try:
+                with quiet():
+                    g2 = stg.Frame(fchans=g.fchans, tchans=g.tchans, df=g.df, dt=g.dt, fch1=g.fch1 + 7 * g.df, ascending=g.ascending, t_start=g.t_start, source_name=g.source_name)
+                    g2.data = g.data.astype(float) + 1.0
+                    (g2.save_fil if fmt == "fil" else g2.save_h5)(fn)
+                    h2 = stg.Frame(waterfall=fn)
+                    hf2 = WU.get_fs(fn)
+                if len(hf2) != h2.fchans or not np.allclose(np.sort(hf2) * 1e6, h2.fs, rtol=0, atol=tolf) or abs(WU.min_freq(fn) * 1e6 - h2.fmin) > tolf or abs(WU.max_freq(fn) * 1e6 - h2.fmax) > tolf:
+                    out["fails"].append(["helper-stale", "%s: after the file was rewritten with a band 7 channels higher, get_fs / min_freq / max_freq still give %r .. %r MHz; the file now holds %r .. %r MHz"
+                                         % (fmt, float(np.min(hf2)), float(np.max(hf2)), h2.fmin * 1e-6, h2.fmax * 1e-6)])
+            except SystemExit:
+                pass
             out["saves"].append(rec)
     return out
 
